@@ -1,6 +1,7 @@
 package main
 
 import (
+	"crypto/sha256"
 	"encoding/json"
 	"fmt"
 	"os"
@@ -18,6 +19,28 @@ func main() {
 	}
 	if os.Args[1] == "replay" {
 		os.Exit(replay(os.Args[2]))
+	}
+	if os.Args[1] == "obslog" {
+		// secondary net of C06: hash of all observation logs of the C06 history set in this (un-instrumented) process
+		h := sha256.New()
+		n := 0
+		for _, hs := range scen.C06Histories(os.Args[2]) {
+			_, e, _, err := mc.ReplayB(hs.Sc, hs.Path)
+			if err != nil {
+				continue
+			}
+			e.Finish()
+			for _, l := range e.Obs {
+				h.Write([]byte(l))
+				h.Write([]byte{10})
+			}
+			n++
+			if os.Args[2] == "quick" && n >= 150 {
+				break
+			}
+		}
+		fmt.Fprintf(out, "histories=%d sha256=%x\n", n, h.Sum(nil))
+		os.Exit(0)
 	}
 	id, tier := os.Args[1], os.Args[2]
 	p, ok := scen.Props[id]
